@@ -96,7 +96,7 @@ fn history(ctx: &mut Ctx, fl: Flavor) {
     ctx.subject(&name);
     let b = ctx.cfg.bs;
     let limit = model::limit_blocks(fl).unwrap();
-    let (iv, ivc) = wl::ctr_iv(&mut ctx.rng, fl, b);
+    let (iv, ivc) = stream_iv(ctx, fl, b);
     let key = ctx.key.clone();
     ctx.note("flavor", J::s(fl.name()));
     ctx.note("iv", J::s(hex_short(&iv)));
